@@ -39,6 +39,7 @@ func runC01(c *Ctx) {
 	c.Floor("C01.R3.PA2", n2, 5, "generator sites whose origin square comes from a piece set")
 	n4 := pa4(c, p, "C01.R3.PA4", inFuncs("movegen.*", "board.(*Board).IsAttacked", "board.(*Board).Attackers"))
 	c.Floor("C01.R3.PA4", n4, 2, "pawn-capture colour sites")
+	c.Floor("C01.R3.WRAP", pa5(c, p, "C01.R3.WRAP", inFuncs("movegen.*")), 4, "one-file bitboard shifts in the generator")
 	c01R4(c, p, "C01.R4")
 	c01R5(c, p)
 	// en-passant captures are generated from the recorded target: the recording rule is part of C01 too
@@ -46,6 +47,9 @@ func runC01(c *Ctx) {
 	c02R7(c, p, "C01.R6.ep-capturable")
 	// "whether the position was loaded from FEN or reached by playing moves": a re-used board must not keep state
 	parseFENResetRule(c, p, "C01.R7")
+	// the generator (and the acceptor) trust Board.Castles without looking for the rook: the rights must be
+	// cleared whenever a king or rook leaves, or a rook is captured on, its corner
+	c.As("C02.R1", "C01.R8.rights", func() { c02R1(c, p) })
 }
 
 // descends: own functions from which board.MakeMove is reachable (they play moves on the board).
